@@ -24,7 +24,7 @@ G = ["g2", "g1"]
 H = ["hd", "h b", "ha", "h[c]"]  # a level with a space and one with brackets
 K = [10, -2, 9]  # string order differs from numeric order
 YC = ["u", "w", "v"]
-VARIANTS = ["str", "cat-ord", "ord-cat", "unused", "num-dtypes", "big"]
+VARIANTS = ["str", "cat-ord", "ord-cat", "unused", "num-dtypes", "big", "falsy"]
 _FR = {}
 
 
@@ -72,6 +72,13 @@ def frame(n, variant, rot):
         df["g"] = pd.Categorical(df["g"], categories=["g2", "g1"])
         order["f"] = ["fc", "fa", "fb"]
         df["yc"] = pd.Categorical(df["yc"], categories=["w", "v", "u"])
+    elif variant == "falsy":  # an empty-string level and the integer level 0
+        df["f"] = [{"fb": "", "fc": "fc", "fa": "fa"}[v] for v in df["f"]]
+        df["k"] = [{10: 0, -2: -2, 9: 9}[v] for v in df["k"]]
+        df["g"] = pd.Categorical([{"g2": 0, "g1": 7}[v] for v in df["g"]])
+        order["f"] = sorted(set(df["f"]))
+        order["k"] = sorted(set(df["k"]))
+        order["g"] = [0, 7]
     elif variant == "num-dtypes":  # numeric columns of other dtypes hold their values just the same
         df["x"] = df["x"].astype("float32").astype("float64")  # float32 products would be rounded in float32: not a labelling issue
         df["z"] = (df["z"] * 10).round().astype("int8")
@@ -304,7 +311,7 @@ def check_case(case, acc):
     c = case["f"]
     df, order = frame(case["n"], case["variant"], case["rot"])
     f = formula_of(c)
-    if case["variant"] in ("unused", "big") and "T(f" in f:
+    if case["variant"] in ("unused", "big", "falsy") and "T(f" in f:
         acc.case([f, case["n"], case["variant"], case["rot"]], "not-encodable")  # C()/T() of an ordered column declaring an unobserved level is refused
         return
     acc.calls += 1
